@@ -67,7 +67,7 @@ fn callf(name: &str, args: Vec<J>) -> J {
     call(var(name), args)
 }
 fn mcall(obj: J, name: &str, args: Vec<J>) -> J {
-    json!({"k": "mcall", "obj": obj, "name": name, "args": args, "named": []})
+    json!({"k": "mcall", "obj": obj, "name": name, "ncp": str_to_cp(name), "args": args, "named": []})
 }
 fn named(n: &str, e: J) -> J {
     json!({"n": n, "ncp": str_to_cp(n), "e": e})
@@ -92,7 +92,7 @@ fn assign(n: &str, e: J) -> J {
 }
 
 const WORDS: &[&str] = &["", "a", "b", "ab", "ba", "abc", "x y", " pad ", "Aa", "zz", "a,b,c", "k1", "k2",
-    "Hello World", "aXbXa", "  two  words ", "A1b c2D", "UP", "42", "a-b_c"];
+    "Hello World", "aXbXa", "  two  words ", "A1b c2D", "UP", "42", "a-b_c", "a\nb", "t\tx", "say \"hi\"", "b\\s", "it's"];
 /// (template, kinds of the arguments: i int, s str, a anything) for the % operator
 const PERCENT: &[(&str, &str)] = &[("%s", "a"), ("<%s>", "a"), ("%r", "a"), ("%d", "i"), ("%x", "i"), ("%X", "i"), ("%o", "i"),
     ("%s=%d", "si"), ("%d%%", "i"), ("%s, %r, %s", "asa"), ("%d-%d-%d", "iii"), ("plain", ""), ("100%%", ""), ("%s %s", "aa"),
@@ -1301,7 +1301,12 @@ impl<'a> Gen<'a> {
                 _ => json!({"k": "index", "e": {"k": "dict", "keys": [strlit("a")], "vals": [int(1)]}, "i": strlit("zz")}),
             }
         };
-        match self.rng.below(12) {
+        match self.rng.below(20) {
+            12 | 13 | 14 => self.inline_order_stmt(),
+            15 => self.assigned_shapes_stmt(),
+            16 => self.bool_simplify_stmt(),
+            17 => self.known_method_stmt(),
+            18 => self.speculative_stmt(),
             0 => {
                 let b = boom(self);
                 vec![json!({"k": "if", "c": f, "then": [emit(b)], "else": [emit(int(1))]})]
@@ -1399,6 +1404,195 @@ impl<'a> Gen<'a> {
                      emit(call(var(&g), vec![int(self.small_int()), int(self.pick(&[0i64, 1, 3]))]))]
             }
             _ => self.stmt(2),
+        }
+    }
+
+    /// the tracer `tr(v)`: emits v and returns it (defined on first use)
+    fn tracer(&mut self, out: &mut Vec<J>) {
+        if self.vars_of(|_| true).iter().any(|v| v.name == "tr") {
+            return;
+        }
+        out.push(json!({"k": "def", "name": "tr", "params": [param("v", "normal", absent())],
+            "body": [emit(var("v")), {"k": "return", "e": var("v")}]}));
+        self.scopes[0].push(Var { name: "tr".to_owned(), ty: Ty::Fn(1) });
+    }
+
+    /// Small functions of the shapes the inliner accepts (a single `return` of an expression over
+    /// the parameters) called with arguments whose evaluation is observable (`tr(..)`) or fails:
+    /// every argument must be evaluated exactly once, in source order, before the body's effect,
+    /// whether or not the parameter is used.
+    fn inline_order_stmt(&mut self) -> Vec<J> {
+        let mut out = Vec::new();
+        self.tracer(&mut out);
+        let f = self.fresh("f");
+        let a = self.fresh("p");
+        let b = self.fresh("p");
+        let body = match self.rng.below(12) {
+            0 => int(self.small_int()),
+            1 => var(&a),
+            2 => var(&b),
+            3 => tuple(vec![var(&b), var(&a)]),
+            4 => json!({"k": "list", "items": [var(&a), var(&b), var(&a)]}),
+            5 => bin(self.pick(&["+", "-", "*", "//", "%", "==", "<", "and_", "in_"]).trim_end_matches('_'), var(&a), var(&b)),
+            6 => callf("type", vec![var(&b)]),
+            7 => json!({"k": "dict", "keys": [strlit("k")], "vals": [var(&b)]}),
+            8 => mcall(strlit(self.pick(&["<{}>", "{0}{0}", "{!r}", "plain"])), "format", vec![var(&a)]),
+            9 => bin("%", strlit(self.pick(&["<%s>", "%r", "%d", "%s%%"])), var(&b)),
+            10 => json!({"k": "if", "c": var(&a), "t": var(&b), "f": int(0)}),
+            _ => callf("len", vec![var(&b)]),
+        };
+        let body = if body["k"] == "bin" && (body["op"] == "and" || body["op"] == "in") {
+            if body["op"] == "and" { json!({"k": "and", "l": var(&a), "r": var(&b)}) } else { bin("in", var(&a), json!({"k": "list", "items": [var(&b)]})) }
+        } else { body };
+        let dflt = if self.rng.chance(1, 3) { callf("tr", vec![int(50)]) } else { absent() };
+        out.push(json!({"k": "def", "name": f, "params": [param(&a, "normal", absent()), param(&b, "normal", dflt.clone())],
+            "body": [{"k": "return", "e": body}]}));
+        let vals: Vec<J> = vec![int(self.small_int()), strlit(self.pick(&["ab", "", "x y"])), json!({"k": "list", "items": [int(1)]}),
+                               tuple(vec![int(1), int(2)]), tuple(vec![int(7)]), none(), json!({"k": "bool", "b": false})];
+        let boom = bin("//", int(1), int(0));
+        for _ in 0..(1 + self.rng.below(3)) {
+            let x = callf("tr", vec![self.pick(&vals)]);
+            let y = callf("tr", vec![self.pick(&vals)]);
+            let c = match self.rng.below(8) {
+                0 => call(var(&f), vec![x, y]),
+                1 => {
+                    let mut c = call(var(&f), vec![]);
+                    c["named"] = json!([named(&b, x), named(&a, y)]);
+                    c
+                }
+                2 => {
+                    let mut c = call(var(&f), vec![x]);
+                    c["named"] = json!([named(&b, y)]);
+                    c
+                }
+                3 => {
+                    let mut c = call(var(&f), vec![]);
+                    c["star"] = json!({"k": "list", "items": [x, y]});
+                    c
+                }
+                4 => call(var(&f), vec![x, boom.clone()]),
+                5 => call(var(&f), vec![boom.clone(), y]),
+                6 if dflt["k"] != "absent" => call(var(&f), vec![x]),
+                _ => {
+                    // through a variable, so that the callee is not known at the call site
+                    let h = self.fresh("v");
+                    out.push(assign(&h, json!({"k": "list", "items": [var(&f)]})));
+                    call(json!({"k": "index", "e": var(&h), "i": int(0)}), vec![x, y])
+                }
+            };
+            out.push(emit(c));
+        }
+        out
+    }
+
+    /// locals that are assigned on some paths only: reading one that was not assigned must fail
+    /// ("referenced before assignment") exactly when the path taken did not assign it
+    fn assigned_shapes_stmt(&mut self) -> Vec<J> {
+        let f = self.fresh("f");
+        let c = self.fresh("p");
+        let y = self.fresh("v");
+        let i = self.fresh("i");
+        let body: Vec<J> = match self.rng.below(6) {
+            0 => vec![json!({"k": "for", "tg": {"k": "var", "n": i}, "it": var(&c), "body": [assign(&y, var(&i))]}),
+                      json!({"k": "return", "e": var(&y)})],
+            1 => vec![json!({"k": "for", "tg": {"k": "var", "n": i}, "it": var(&c), "body": [
+                          {"k": "if", "c": bin(">", var(&i), int(1)), "then": [{"k": "break"}], "else": []}, assign(&y, var(&i))]}),
+                      json!({"k": "return", "e": var(&y)})],
+            2 => vec![json!({"k": "if", "c": var(&c), "then": [assign(&y, int(1))], "else": [{"k": "pass"}]}),
+                      json!({"k": "return", "e": tuple(vec![int(0), var(&y)])})],
+            3 => vec![json!({"k": "if", "c": {"k": "bool", "b": false}, "then": [assign(&y, int(1))], "else": []}),
+                      json!({"k": "if", "c": var(&c), "then": [assign(&y, int(2))], "else": []}),
+                      json!({"k": "return", "e": var(&y)})],
+            4 => {
+                let g = self.fresh("g");
+                vec![json!({"k": "def", "name": g, "params": [], "body": [{"k": "return", "e": var(&y)}]}),
+                     json!({"k": "if", "c": var(&c), "then": [assign(&y, int(3))], "else": []}),
+                     json!({"k": "return", "e": call(var(&g), vec![])})]
+            }
+            _ => vec![json!({"k": "if", "c": var(&c), "then": [{"k": "return", "e": int(0)}], "else": []}),
+                      emit(var(&y)), assign(&y, int(4)), json!({"k": "return", "e": var(&y)})],
+        };
+        let args: Vec<J> = vec![json!({"k": "list", "items": []}), json!({"k": "list", "items": [int(1), int(2), int(3)]}), json!({"k": "list", "items": [int(5)]})];
+        let mut out = vec![json!({"k": "def", "name": f, "params": [param(&c, "normal", absent())], "body": body})];
+        out.push(emit(call(var(&f), vec![self.pick(&args)])));
+        out.push(emit(call(var(&f), vec![self.pick(&args)])));
+        out
+    }
+
+    /// boolean contexts with constant operands: `x and True` is x, not True; `not` of comparisons
+    fn bool_simplify_stmt(&mut self) -> Vec<J> {
+        let t = json!({"k": "bool", "b": true});
+        let f = json!({"k": "bool", "b": false});
+        let x = self.any_sized(1);
+        let e = match self.rng.below(10) {
+            0 => json!({"k": "and", "l": x, "r": t}),
+            1 => json!({"k": "or", "l": x, "r": f}),
+            2 => json!({"k": "and", "l": t, "r": x}),
+            3 => json!({"k": "or", "l": f, "r": x}),
+            4 => json!({"k": "not", "e": {"k": "not", "e": x}}),
+            5 => json!({"k": "not", "e": bin(self.pick(&["==", "!=", "in", "notin"]), x.clone(), json!({"k": "list", "items": [x]}))}),
+            6 => json!({"k": "if", "c": {"k": "not", "e": x}, "t": int(1), "f": int(2)}),
+            7 => json!({"k": "and", "l": {"k": "or", "l": x.clone(), "r": int(0)}, "r": {"k": "or", "l": none(), "r": x}}),
+            8 => json!({"k": "if", "c": {"k": "and", "l": t, "r": {"k": "not", "e": x}}, "t": strlit("y"), "f": strlit("n")}),
+            _ => json!({"k": "or", "l": {"k": "and", "l": x.clone(), "r": f}, "r": {"k": "not", "e": x}}),
+        };
+        let mut out = vec![emit(e.clone())];
+        if self.rng.chance(1, 2) {
+            out.push(json!({"k": "if", "c": e, "then": [emit(int(1))], "else": [emit(int(0))]}));
+        }
+        out
+    }
+
+    /// a method name the compiler knows (`append`, `format`, ...) on a receiver that is not what
+    /// the fast path expects: a struct field holding a function, a value without that method
+    fn known_method_stmt(&mut self) -> Vec<J> {
+        let mut out = Vec::new();
+        self.tracer(&mut out);
+        let s = self.fresh("v");
+        let name = self.pick(&["append", "format", "get", "upper", "keys", "pop"]);
+        let p = self.fresh("p");
+        let lam = json!({"k": "lambda", "params": [param(&p, "normal", int(3))], "body": tuple(vec![strlit(name), var(&p)])});
+        let mut c = call(var("struct"), vec![]);
+        c["named"] = json!([named(name, lam)]);
+        out.push(assign(&s, c));
+        out.push(emit(mcall(var(&s), name, if self.rng.chance(1, 2) { vec![callf("tr", vec![int(1)])] } else { vec![] })));
+        // the same name on values that do or do not have it
+        let recv = match self.rng.below(5) {
+            0 => int(1),
+            1 => none(),
+            2 => strlit("s{}"),
+            3 => json!({"k": "list", "items": [int(1)]}),
+            _ => json!({"k": "dict", "keys": [strlit("a")], "vals": [int(1)]}),
+        };
+        out.push(emit(mcall(recv, name, vec![callf("tr", vec![strlit("a")])])));
+        out
+    }
+
+    /// pure builtins and methods applied to constants (evaluated speculatively at compile time):
+    /// results and failures must be those of run time, at the place where they happen
+    fn speculative_stmt(&mut self) -> Vec<J> {
+        let e = match self.rng.below(14) {
+            0 => callf("len", vec![strlit(self.pick(WORDS))]),
+            1 => mcall(strlit(self.pick(WORDS)), self.pick(&["upper", "title", "strip", "capitalize", "isdigit"]), vec![]),
+            2 => mcall(strlit("{} {}"), "format", vec![int(1)]),
+            3 => bin("%", strlit("%d"), strlit("x")),
+            4 => callf("int", vec![strlit(self.pick(&["12", "x", ""]))]),
+            5 => callf("type", vec![tuple(vec![int(1)])]),
+            6 => mcall(strlit("a,b"), "split", vec![strlit(self.pick(&[",", "b"]))]),
+            7 => callf("str", vec![json!({"k": "list", "items": [int(1), strlit("a")]})]),
+            8 => callf("sorted", vec![json!({"k": "list", "items": [int(2), strlit("a")]})]),
+            9 => callf("max", vec![json!({"k": "list", "items": []})]),
+            10 => callf("chr", vec![int(self.pick(&[97i64, -1]))]),
+            11 => callf("ord", vec![strlit(self.pick(&["a", "ab"]))]),
+            12 => callf("range", vec![int(1), int(5), int(0)]),
+            _ => mcall(strlit("abc"), "index", vec![strlit(self.pick(&["b", "z"]))]),
+        };
+        let f = self.fresh("f");
+        match self.rng.below(4) {
+            0 => vec![emit(e)],
+            1 => vec![json!({"k": "def", "name": f, "params": [], "body": [{"k": "return", "e": e}]}), emit(int(1)), emit(call(var(&f), vec![]))],
+            2 => vec![json!({"k": "def", "name": f, "params": [], "body": [{"k": "return", "e": e}]}), emit(int(2))],
+            _ => vec![json!({"k": "if", "c": {"k": "bool", "b": false}, "then": [emit(e.clone())], "else": [emit(int(3))]}), emit(e)],
         }
     }
 
